@@ -269,12 +269,16 @@ def verify_group(quals, sidecar_names, timeout_ms=30000, second_opinion=False, r
         nproof = 0
         for o in fr.obligations:
             if o['kind'] != 'proof':
-                if o['kind'] == 'cover' and o['status'] not in ('ok', 'proved'):
+                if o['kind'] == 'cover' and o['status'] not in ('ok', 'proved') and '/site[return ' not in o['name']:
                     out.append(dict(o, function=fr.qual, kind='proof', status='failed',
                                     reason='vacuity: a cover was refuted (%s)' % o.get('reason', '')))
                 continue
             nproof += 1
             out.append(dict(o, function=fr.qual, abstracted=len(fr.abstracted)))
+        rc = [o for o in fr.obligations if o['kind'] == 'cover' and '/site[return ' in o['name']]
+        if rc and all(o['status'] == 'vacuous' for o in rc):
+            out.append(dict(name='%s/no-reachable-return' % fr.qual, function=fr.qual, lineno=0, kind='proof', status='failed',
+                            secs=0, backend='pyvc', reason='vacuity: no return statement is reachable under the contract'))
         if nproof == 0:
             out.append(dict(name='%s/no-obligation-generated' % fr.qual, function=fr.qual, lineno=0, kind='proof',
                             status='failed', secs=0, backend='pyvc', reason='vacuity: no obligation was generated'))
